@@ -265,6 +265,9 @@ func (packet *Packet) replaceQuery(newQuery string) {
 }
 
 // readPacket read header to struct and return payload as return result or error
+// A payload of MaxPayloadLen bytes or more is sent as a sequence of packets: every packet except the last one carries
+// exactly MaxPayloadLen bytes and the last one is shorter (possibly empty). The header of the first packet is kept
+// (its sequence id starts the sequence); the payloads are concatenated.
 func (packet *Packet) readPacket(connection net.Conn) ([]byte, error) {
 	if _, err := io.ReadFull(connection, packet.header); err != nil {
 		return nil, err
@@ -279,21 +282,48 @@ func (packet *Packet) readPacket(connection net.Conn) ([]byte, error) {
 	if _, err := io.ReadFull(connection, data); err != nil {
 		return nil, err
 	}
-	if length < MaxPayloadLen {
-		return data, nil
-	}
 
-	var buf []byte
-	buf, err := packet.readPacket(connection)
-	if err != nil {
-		return nil, err
+	var header [PacketHeaderSize]byte
+	for length == MaxPayloadLen {
+		if _, err := io.ReadFull(connection, header[:]); err != nil {
+			return nil, err
+		}
+		length = int(uint32(header[0]) | uint32(header[1])<<8 | uint32(header[2])<<16)
+		if length == 0 {
+			break
+		}
+		offset := len(data)
+		data = append(data, make([]byte, length)...)
+		if _, err := io.ReadFull(connection, data[offset:]); err != nil {
+			return nil, err
+		}
 	}
-	return append(data, buf...), nil
+	return data, nil
 }
 
 // Dump returns packet header and data as []byte
+// Data of MaxPayloadLen bytes or more is split into packets of MaxPayloadLen bytes with consecutive sequence ids,
+// terminated by a shorter (possibly empty) packet.
 func (packet *Packet) Dump() []byte {
-	return append(packet.header, packet.data...)
+	if len(packet.data) < MaxPayloadLen {
+		return append(packet.header, packet.data...)
+	}
+	data := packet.data
+	sequenceID := packet.header[SequenceIDIndex]
+	output := make([]byte, 0, len(data)+PacketHeaderSize*(len(data)/MaxPayloadLen+1))
+	for {
+		size := len(data)
+		if size > MaxPayloadLen {
+			size = MaxPayloadLen
+		}
+		output = append(output, byte(size), byte(size>>8), byte(size>>16), sequenceID)
+		output = append(output, data[:size]...)
+		data = data[size:]
+		sequenceID++
+		if size < MaxPayloadLen {
+			return output
+		}
+	}
 }
 
 // ReadPacket header and payload from connection or return error
